@@ -180,3 +180,69 @@ Proof.
   - intros w HK. exact HK.
   - intros w w' HK E. eapply op_result_KW; eauto. reflexivity.
 Qed.
+
+(* ------------------------------------------------------------------ ProbeMounts cannot panic on a rendered table *)
+(* Whatever the table contains (well-formed or not), every rendered line has at least three fields
+   after its first "-" separator, so the parser's panic branches are out of reach. *)
+Lemma split_nonempty sep s : split sep s <> [].
+Proof. apply split_acc_nonempty. Qed.
+Lemma split_acc_app_sep' sep a : forall cur b,
+  split_acc sep cur (a ++ sep :: b) = split_acc sep cur a ++ split sep b.
+Proof.
+  induction a as [|ch a IH]; intros cur b; cbn.
+  - now rewrite Ascii.eqb_refl.
+  - destruct (Ascii.eqb ch sep); [cbn; f_equal; apply IH|apply IH].
+Qed.
+Lemma split_join_flat sep L : L <> [] -> split sep (join sep L) = flat_map (split sep) L.
+Proof.
+  induction L as [|x r IH]; [congruence|]. intros _. destruct r as [|y r'].
+  - cbn [join flat_map]. now rewrite app_nil_r.
+  - change (join sep (x :: y :: r')) with (x ++ sep :: join sep (y :: r')).
+    unfold split at 1. rewrite split_acc_app_sep'. fold (split sep x). rewrite IH by discriminate. reflexivity.
+Qed.
+Lemma after_dash_suffix Q : forall P, exists R, after_dash (P ++ dash :: Q) = Some R /\ length Q <= length R.
+Proof.
+  induction P as [|x P IH]; cbn [app after_dash].
+  - rewrite beq_refl. exists Q. split; [reflexivity|lia].
+  - destruct (beq x dash).
+    + exists (P ++ dash :: Q). split; [reflexivity|]. rewrite app_length. cbn. lia.
+    + exact IH.
+Qed.
+Lemma flat_split_length sep L : length L <= length (flat_map (split sep) L).
+Proof.
+  induction L as [|x r IH]; cbn [flat_map length]; [lia|]. rewrite app_length.
+  pose proof (split_nonempty sep x). destruct (split sep x); [congruence|cbn; lia].
+Qed.
+Lemma parse_render_nopanic k : parse_line (render_line k) <> LPanic.
+Proof.
+  unfold parse_line, render_line.
+  set (FL := [k_id k; k_parent k; k_dev k; mangle esc_path (k_root k); mangle esc_path (k_mp k); k_opts k]
+             ++ k_optional k ++ [dash; k_fstype k; mangle esc_path (k_source k); join comma (map render_sopt (k_sopts k))]).
+  rewrite (split_join_flat sp FL) by discriminate.
+  destruct (length (flat_map (split sp) FL) <? 10)%nat; [discriminate|].
+  (* the six leading fields give at least six segments; what follows ends with "-" and three fields *)
+  set (S6 := flat_map (split sp) [k_id k; k_parent k; k_dev k; mangle esc_path (k_root k); mangle esc_path (k_mp k); k_opts k]).
+  set (So := flat_map (split sp) (k_optional k)).
+  set (Q := flat_map (split sp) [k_fstype k; mangle esc_path (k_source k); join comma (map render_sopt (k_sopts k))]).
+  assert (E : flat_map (split sp) FL = S6 ++ So ++ dash :: Q).
+  { unfold FL. rewrite !flat_map_app. reflexivity. }
+  rewrite E.
+  assert (L6 : 6 <= length S6) by (apply (flat_split_length sp [_; _; _; _; _; _])).
+  assert (LQ : 3 <= length Q) by (apply (flat_split_length sp [_; _; _])).
+  destruct S6 as [|a [|b0 [|c0 [|d [|e0 [|f0 rest6]]]]]]; cbn [length] in L6; try lia.
+  cbn [app]. rewrite app_assoc.
+  destruct (after_dash_suffix Q (rest6 ++ So)) as (R & -> & LR).
+  destruct R as [|x [|y tl]]; cbn [length] in LR; try lia.
+  destruct (beq x overlay); [|discriminate].
+  destruct tl; [cbn [length] in LR; lia|]. destruct (ovl_parse l) as [[lo up] wk]. discriminate.
+Qed.
+Lemma probe_lines_render_nopanic T : forall st, probe_lines st (render T) <> PPanic.
+Proof.
+  induction T as [|k T IH]; intros st; cbn [render map probe_lines]; [discriminate|].
+  pose proof (parse_render_nopanic k). destruct (parse_line (render_line k)); [apply IH|congruence|apply IH].
+Qed.
+Theorem probe_of_total k : exists ms ds, probe_of k = POk ms ds.
+Proof.
+  unfold probe_of, probe. pose proof (probe_lines_render_nopanic (ks_tab k) (MkP [] [] [])) as H.
+  destruct (probe_lines _ _); [congruence|eauto].
+Qed.
